@@ -16,6 +16,7 @@ class Plan:
         self.assumptions = []
         self.rule_extra = ''
         self.env = {}             # extra environment for the driver (oracle switches)
+        self.live_runs = []       # [(Cfg, heights, runs)] real-goroutine executions recorded and validated by TLC
 
 
 def add_pseudo(ctx, traces, plan):
@@ -35,6 +36,75 @@ def add_pseudo(ctx, traces, plan):
                 t['steps'].insert(k + 1, {'a': 'RealStartProbe', 'args': [n], 'post': t['steps'][k]['post']})
         if plan.drain:
             t['steps'].append({'a': 'Drain', 'args': [cfg['MaxHeight'], plan.drain], 'post': t['steps'][-1]['post']})
+
+
+def run_live(ctx, plan):
+    """Record executions of real goroutines (real receiveRoutine + timeoutTicker, relayed messages) and let TLC decide
+    whether each is a behaviour of Tendermint.tla (Trace_Tendermint.tla)."""
+    import json, os, subprocess, tempfile, shutil
+    total = accepted = events = 0
+    for cfg, heights, runs in plan.live_runs:
+        for k in range(runs):
+            seed = ctx.seed * 1000 + k
+            d = tempfile.mkdtemp(prefix='vlive-')
+            try:
+                cj = os.path.join(d, 'cfg.json')
+                out = os.path.join(d, 'trace.ndjson')
+                with open(cj, 'w') as f:
+                    json.dump({'Power': cfg.power, 'Byz': cfg.byz, 'MaxRound': cfg.max_round, 'Heights': heights,
+                               'Seed': seed, 'LimitMs': 60000}, f)
+                p = subprocess.run([os.path.join(engine.HARNESS, engine.BIN, 'csim'), 'live', cj, out],
+                                   stdout=subprocess.PIPE, stderr=subprocess.PIPE, text=True, errors='replace',
+                                   timeout=300, env=engine.GOENV)
+                if p.returncode != 0:
+                    ctx.inconclusive.append('csim live died: ' + (p.stderr or '')[-500:])
+                    continue
+                res = json.loads(p.stdout.strip().splitlines()[-1])
+                total += 1
+                if res.get('agreement'):
+                    ctx.failures.append({'key': 'Agreement', 'property': True, 'kind': 'property', 'detail': res['agreement'],
+                                         'engine': 'csim-live', 'replay': None})
+                if res.get('error'):
+                    ctx.inconclusive.append('real-goroutine run %s seed %d: %s (timing dependent; not a verdict)'
+                                            % (cfg.name, seed, res['error']))
+                    continue
+                lines = open(out).read().splitlines()
+                events += len(lines)
+                r = tm.validate_trace(ctx, cfg, out)
+                ctx.cov['tlc_runs'].append(dict(r.summary(), name='Trace/%s/%d' % (cfg.name, seed), exhaustive=False))
+                if r.ok and not r.violation:
+                    accepted += 1
+                    if k == 0 and len(lines) > 10:
+                        # binding self-test of the trace spec: one corrupted logged field must be rejected
+                        rec = json.loads(lines[len(lines) // 2])
+                        rec['post']['st'] = 8 if rec['post']['st'] != 8 else 2
+                        bad = os.path.join(d, 'bad.ndjson')
+                        with open(bad, 'w') as f:
+                            f.write('\n'.join(lines[:len(lines) // 2] + [json.dumps(rec)] + lines[len(lines) // 2 + 1:]) + '\n')
+                        rb = tm.validate_trace(ctx, cfg, bad)
+                        ctx.cov['trace_selftest'] = 'rejected' if not rb.ok else 'ACCEPTED'
+                        if rb.ok:
+                            ctx.inconclusive.append('trace-validation self-test: corrupted trace accepted')
+                else:
+                    keep = os.path.join(engine.VERIF, 'replays', '%s-live-%s-%d.ndjson' % (ctx.pid, cfg.name, seed))
+                    os.makedirs(os.path.dirname(keep), exist_ok=True)
+                    shutil.copy(out, keep)
+                    idx = r.depth  # number of states reached = index of the first unexplained record
+                    what = r.violation or 'TraceAccepted'
+                    rec = lines[idx - 1] if 0 < idx <= len(lines) else ''
+                    if r.error or r.timeout:
+                        ctx.inconclusive.append('trace validation did not complete: %s' % (r.error or 'timeout')[:300])
+                    else:
+                        ctx.failures.append({'key': 'trace:' + what, 'property': True, 'kind': 'trace',
+                                             'detail': 'recorded execution of real goroutines is not a behaviour of Tendermint.tla '
+                                                       '(%s) at record %d: %s (trace kept at %s)' % (what, idx, rec[:600], keep),
+                                             'engine': 'csim-live', 'replay': None, 'action': 'record %d' % idx, 'step': idx})
+            finally:
+                shutil.rmtree(d, ignore_errors=True)
+    if plan.live_runs:
+        ctx.cov['live_runs'] = total
+        ctx.cov['live_traces_accepted_by_tlc'] = accepted
+        ctx.cov['live_events'] = events
 
 
 def run_family(ctx, plan, replay=None):
@@ -79,6 +149,7 @@ def run_family(ctx, plan, replay=None):
         ctx.add_tlc('Tendermint/' + cfg.name, r, exhaustive=False)
         ctx.log('simulated %s: %d behaviours' % (cfg.name, len(ts)))
         traces += ts
+    run_live(ctx, plan)
     # binding self-test: corrupt one expected field
     probe = None
     for t in traces:
